@@ -14,6 +14,7 @@ import (
 	"regexp"
 	"runtime"
 	"strings"
+	"time"
 
 	"github.com/coregx/coregex"
 	"github.com/coregx/coregex/meta"
@@ -580,6 +581,7 @@ func runSearch(args []string) {
 	props := fs.String("props", "C01", "comma list of properties to decide")
 	report := fs.String("report", "report.json", "")
 	fails := fs.String("fail", "fail.ndjson", "")
+	ladder := fs.String("ladder", "", "auxiliary length ladder: q (21 kB on 1/16 of the patterns) | t (21 kB, 70 kB on 1/8, 2.3 MB on 1/64)")
 	longMax := fs.Int("long", 0, "auxiliary: also compare with regexp on pumped haystacks up to this many bytes (0 = off)")
 	fs.Parse(args)
 
@@ -833,6 +835,115 @@ func runSearch(args []string) {
 						}
 						calls += ll.c03(fl)
 						calls += ll.c04(allL)
+					}
+				}
+			}
+		}
+		if *ladder != "" {
+			// Length ladder: the thresholds inside the engines (visited-table budgets of the backtrackers, DFA cache sizes, the
+			// 4 KiB / 64 KiB windows) sit far beyond what TLC can enumerate.  Content-selected patterns, pumped members of a
+			// 2-symbol haystack at 21 kB / 70 kB / 2.3 MB, a reduced API set, regexp as the arbiter.  A pattern that is already
+			// slower than 1.5 us per byte on 4200 bytes is left to C05 (counted).
+			ph := contentHash([]byte(pat))
+			sel := ph%16 == 0 || (*ladder == "t" && ph%8 == 0)
+			if sel {
+				var sizes []int
+				sizes = append(sizes, 21000)
+				if *ladder == "t" {
+					sizes = append(sizes, 70000)
+					if ph%64 == 0 {
+						sizes = append(sizes, 2300000)
+					}
+				}
+				nh := 0
+				for hi := range rec.Hs {
+					h := rec.Hs[hi].H
+					if len(h) != 2 || (rec.I+h[0]*5+h[1])%2 != 0 || nh >= 2 {
+						continue
+					}
+					nh++
+					for li, n := range sizes {
+						var u, v, w []int
+						switch (li + h[1]) % 3 {
+						case 0:
+							u, v, w = nil, h[:1], h[1:] // x^k y : the interesting part at the very end
+						case 1:
+							u, v, w = h[:1], h[1:], nil // x y^k : ... at the very start
+						default:
+							u, v, w = nil, h, nil
+						}
+						ub, vb, wb := core.HayBytes(u), core.HayBytes(v), core.HayBytes(w)
+						mk := func(n int) []byte {
+							b := append([]byte{}, ub...)
+							for len(b) < n {
+								b = append(b, vb...)
+							}
+							return append(b, wb...)
+						}
+						// speed probe on 4200 bytes
+						pb := mk(4200)
+						t0 := time.Now()
+						func() {
+							defer func() { recover() }()
+							cg.FindIndex(pb)
+							cg.FindSubmatchIndex(pb)
+						}()
+						if el := time.Since(t0); el > time.Duration(len(pb))*1500*time.Nanosecond*2 {
+							rep.API("ladder:skipped-slow", 1)
+							break
+						}
+						b := mk(n)
+						lc := &sctx{rep: rep, props: pset, pat: pat, fam: rec.Fam, strat: strat, mode: "first", cg: cg, eng: eng, nc: rec.NC, b: b, s: string(b), scope: "ladder",
+							hx: core.Hex(ub) + "|" + core.Hex(vb) + "*|" + core.Hex(wb) + fmt.Sprintf("|%d", len(b))}
+						cases++
+						rep.API(fmt.Sprintf("ladder:%d", n), 1)
+						if pset["C01"] || pset["C11"] {
+							want := std.Match(b)
+							calls++
+							lc.guard("C01", "Match", "", func() {
+								if got := cg.Match(b); got != want {
+									lc.fail("C01", "Match", "", fmt.Sprint(want), fmt.Sprint(got))
+								}
+							})
+						}
+						if pset["C02"] || pset["C11"] {
+							want := std.FindIndex(b)
+							calls++
+							lc.guard("C02", "FindIndex", "", func() {
+								if got := cg.FindIndex(b); !eqInts(got, want) {
+									lc.fail("C02", "FindIndex", "", core.IntsStr(want), core.IntsStr(got))
+								}
+							})
+						}
+						if pset["C03"] {
+							want := std.FindSubmatchIndex(b)
+							calls++
+							lc.guard("C03", "FindSubmatchIndex", "", func() {
+								if got := cg.FindSubmatchIndex(b); !eqInts(got, want) {
+									lc.fail("C03", "FindSubmatchIndex", "", core.IntsStr(want), core.IntsStr(got))
+								}
+							})
+						}
+						if pset["C04"] {
+							want := std.FindAllIndex(b, 3)
+							calls++
+							lc.guard("C04", "FindAllIndex", "n=3", func() {
+								if got := cg.FindAllIndex(b, 3); !eqAll(got, want) {
+									lc.fail("C04", "FindAllIndex", "n=3", fmt.Sprint(want), fmt.Sprint(got))
+								}
+							})
+						}
+						if pset["C10"] {
+							want := stdL.FindSubmatchIndex(b)
+							calls++
+							ll := *lc
+							ll.mode, ll.as = "longest", "C10"
+							ll.guard("C10", "FindSubmatchIndex", "", func() {
+								if got := cgL.FindSubmatchIndex(b); !eqInts(got, want) {
+									ll.fail("C10", "FindSubmatchIndex", "", core.IntsStr(want), core.IntsStr(got))
+								}
+							})
+						}
 					}
 				}
 			}
